@@ -427,6 +427,7 @@ func TestC03Forks(t *testing.T) {
 	r.Rule = "rapid: fork trees of 2..4 branches over 4..9 heights (branches fork from earlier branches, same block ids re-applied on flip-flops), arrival order a random interleaving with bursts, LIB progress with lag 2/3/4/never, turned into new/undo/irreversible/stalled signals by the real bstream/forkable; stores whose operations depend on the block id (10..40% delete_prefix); a dev-mode and a production-mode tier1 request whose start equals the hand-off; oracle (a) after every new/undo step every store is typed-equal, with exact size, to the stores of a fork-free execution of the current canonical chain (memoised per chain prefix), (b) a simulated client that drops blocks above last_valid_block on undo always knows the designated block, never sees two blocks of one height without an undo, and ends with exactly the outputs of the final canonical chain; non-trivial = the history undoes a block whose deltas include a delete or a size-changing update"
 	rapid.Check(t, func(rt *rapid.T) {
 		c := genC03(rt)
+		r.Begin(c)
 		f, st := checkC03(c)
 		cl := []string{fmt.Sprintf("undos<=%d", bucketInt(st.undos))}
 		if st.flipflop > 0 {
